@@ -7,7 +7,7 @@
 From Coq Require Import ZArith List Bool Sorted.
 From Mesa Require Import Generated.Tables Model.Devs Model.DevsSpec
   Proofs.DevsProofs Proofs.DevsOrderProofs Proofs.DevsOnceProofs Proofs.DevsLiveProofs Proofs.DevsAtomicProofs
-  Proofs.DevsTopProofs Proofs.DevsTop14Proofs Model.Heap Proofs.HeapProofs Proofs.DevsHeapProofs.
+  Proofs.DevsTopProofs Proofs.DevsTop14Proofs Model.Heap Model.DevsHeap Proofs.HeapProofs Proofs.DevsHeapProofs Proofs.DevsHeapSimProofs.
 From Coq Require Import Permutation.
 Import ListNotations.
 Open Scope Z_scope.
@@ -283,6 +283,15 @@ Theorem C14_heap_refines_push : forall heap sorted e, refines heap sorted ->
   ~ In (e_uid e) (map e_uid sorted) -> refines (heappush event ev_ltb heap e) (ev_insert e sorted).
 Proof. exact refines_push. Qed.
 Print Assumptions C14_heap_refines_push.
+
+(* ... and for the whole simulator: Model/DevsHeap.v is Model/Devs.v with the event list kept as the heapq array
+   (heappush/heappop where Devs.v inserts in order / takes the head; this is the model the optional tie
+   VERIF_HEAPQ_TIE=1 compares with the implementation INCLUDING the order of EventList._events).  On every history it
+   produces exactly the observations of Model/Devs.v - so every theorem above also speaks about the heap-based model. *)
+Theorem C14_heap_simulator_refines : forall c,
+  map fst (h_run_ops (c_cfg c) (c_fuel c) (h_init (c_cfg c)) (c_ops c)) = run_case c.
+Proof. exact heap_simulator_refines_case. Qed.
+Print Assumptions C14_heap_simulator_refines.
 
 (* the array of defect #20: pushing times 1,3,2,5,4 leaves the heap array in the order 1,3,2,5,4 (which the
    unrepaired peak_ahead returned), while the key order is 1,2,3,4,5 *)
